@@ -35,6 +35,10 @@ def run(tier):
             if fi.qualname.split(".")[1] in ("rtol", "atol"):
                 R.under_contract(fi)
         R.under_contract(intcall.check_richardson_call(reg, src, PID))
+        # ... and over an adaptive base method every pass of the extrapolation table covers the interval the first pass covered, both directions
+        from . import richardson_extract as RE
+        for levels in (2, 3, 4):
+            R.under_contract(RE.verify_common_interval(src, reg, levels, PID))
         for fi in IC.verify_helpers(src, reg, PID):
             R.under_contract(fi)
         R.under_contract(src.func(IC.F, "OdeSystem.integrate"))
